@@ -136,8 +136,9 @@ def mcs_size(G1, G2, node_ok, edge_ok):
 
 
 # ---------------------------------------------------------------- the check
-def _run(cls, cfg, G1, G2, mcs):
-    """-> (list of G1->G2 mappings, extra dict)"""
+def _run(cls, cfg, G1, G2, mcs, warm=False):
+    """-> (list of G1->G2 mappings, extra dict).  warm=True: the same matcher object first searches the swapped
+    pair (G2, G1) - results of the second search must not depend on what the object did before."""
     if cls == "mtg":
         from synkit.Graph.MTG.mcs_matcher import MCSMatcher
 
@@ -145,6 +146,8 @@ def _run(cls, cfg, G1, G2, mcs):
         if cfg.get("node_attrs"):
             kw = dict(node_label_names=list(cfg["node_attrs"]), node_label_defaults=list(cfg["node_defaults"]))
         m = MCSMatcher(**kw)
+        if warm:
+            m.find_common_subgraph(G2, G1, mcs=mcs)
         m.find_common_subgraph(G1, G2, mcs=mcs)
         return [dict(x) for x in m.get_mappings()], None
     from synkit.Graph.Matcher.mcs_matcher import MCSMatcher
@@ -159,6 +162,9 @@ def _run(cls, cfg, G1, G2, mcs):
     if cfg.get("prune_auto"):
         kw["prune_automorphisms"] = True
     m = MCSMatcher(**kw)
+    if warm:
+        m.find_common_subgraph(G2, G1, mcs=mcs)
+        m.get_mappings("G1_to_G2")
     m.find_common_subgraph(G1, G2, mcs=mcs)
     d12 = m.get_mappings("G1_to_G2")
     d21 = m.get_mappings("G2_to_G1")
@@ -191,6 +197,8 @@ def body(case, rec):
     )
     if not (gg_connected(G1) and gg_connected(G2)):
         rec.label("disconnected-input")
+    if case.get("warm"):
+        rec.label("matcher-object-reused")
     for k in ("prune_wc", "prune_auto", "edge_attrs", "node_attrs"):
         if cfg.get(k):
             rec.label(f"cfg:{k}")
@@ -199,7 +207,7 @@ def body(case, rec):
     for cls in case["cls"]:
         for mcs in case["mcs"]:
             tag = f"{cls}/mcs={mcs}"
-            maps, extra = _run(cls, cfg, G1, G2, bool(mcs))
+            maps, extra = _run(cls, cfg, G1, G2, bool(mcs), warm=bool(case.get("warm")))
             if (gg.from_nx(G1), gg.from_nx(G2)) != snap:
                 raise Violation("input-mutated", f"{tag}: the search changed an input graph")
             rec.label(f"{cls}:n_maps={'0' if not maps else ('1' if len(maps) == 1 else ('2-9' if len(maps) < 10 else '10+'))}")
@@ -408,7 +416,7 @@ def pair_cases(draw, tier):
         a = draw(gg.graphs(min_nodes=1, max_nodes=cap1, node_attrs=na, edge_attrs=ea, id_pool=200))
         b = draw(gg.graphs(min_nodes=1, max_nodes=cap2, node_attrs=na, edge_attrs=ea, id_pool=200))
         g1, g2 = draw(_renumber(a, pool1)), draw(_renumber(b, pool2))
-    return {"g1": g1, "g2": g2, "cls": [cls], "mcs": [mcs], "cfg": cfg, "kind": kind}
+    return {"g1": g1, "g2": g2, "cls": [cls], "mcs": [mcs], "cfg": cfg, "kind": kind, "warm": draw(st.sampled_from([False, False, True]))}
 
 
 @st.composite
